@@ -81,7 +81,7 @@ struct quad_info_t
     double   lambda_min{0};
 };
 
-std::unique_ptr<quadratic_t> make_quadratic(Rng& rng, int64_t n, quad_info_t& info, bool hard = false)
+std::unique_ptr<quadratic_t> make_quadratic(Rng& rng, int64_t n, quad_info_t& info, int hard = 0)
 {
     // random orthogonal Q by Gram-Schmidt
     matrix_t Q(n, n);
@@ -108,9 +108,9 @@ std::unique_ptr<quadratic_t> make_quadratic(Rng& rng, int64_t n, quad_info_t& in
     }
     // condition number in [1, 1e3] and curvature scale in [1e-3, 1e3] (the corners included); the spectrum is geometric, or random /
     // clustered inside [1, kappa] with both ends attained
-    // (hard: the ill-conditioned, flat corner of the class, where quasi-Newton methods need most of their evaluation budget)
-    const auto kappa = hard ? std::pow(10.0, rng.uniform(2.5, 3.0)) : rng.coin(1, 8) ? rng.pick(std::vector<double>{1.0, 1e3}) : std::pow(10.0, rng.uniform(0.0, 3.0));
-    const auto s     = hard ? std::pow(10.0, rng.uniform(-3.0, -2.0)) : rng.coin(1, 8) ? rng.pick(std::vector<double>{1e-3, 1e3}) : std::pow(10.0, rng.uniform(-3.0, 3.0));
+    // (hard: the ill-conditioned corners of the class - 1: flat, 2: steep, 3: exactly on the boundary of the class (kappa = 1e3, scale 1e-3 | 1e3, minimiser at a corner of the box) - where quasi-Newton methods need most of their evaluation budget)
+    const auto kappa = hard == 3 ? 1e3 : hard != 0 ? std::pow(10.0, rng.uniform(2.5, 3.0)) : rng.coin(1, 8) ? rng.pick(std::vector<double>{1.0, 1e3}) : std::pow(10.0, rng.uniform(0.0, 3.0));
+    const auto s     = hard == 3 ? rng.pick(std::vector<double>{1e-3, 1e3}) : hard == 1 ? std::pow(10.0, rng.uniform(-3.0, -2.0)) : hard == 2 ? std::pow(10.0, rng.uniform(2.0, 3.0)) : rng.coin(1, 8) ? rng.pick(std::vector<double>{1e-3, 1e3}) : std::pow(10.0, rng.uniform(-3.0, 3.0));
     vector_t   spectrum(n);
     const auto shape = rng.range(0, 2);
     for (tensor_size_t i = 0; i < n; ++i)
@@ -127,7 +127,7 @@ std::unique_ptr<quadratic_t> make_quadratic(Rng& rng, int64_t n, quad_info_t& in
     info.xstar      = vector_t(n);
     for (tensor_size_t i = 0; i < n; ++i)
     {
-        info.xstar(i) = rng.uniform(-5.0, 5.0);
+        info.xstar(i) = hard == 3 ? (rng.coin() ? -5.0 : 5.0) : rng.uniform(-5.0, 5.0); // 3: the boundary of the class
     }
     vector_t a(n);
     a.vector() = -A.matrix() * info.xstar.vector();
